@@ -17,7 +17,7 @@ import re
 from common import gal, g_str, g_bool, g_list, g_opt, g_z
 
 # inherited StringField options (the region of the open finding F56 when combined with a start directory)
-SOPTS = [("case", "lower"), ("case", "upper"), ("min", 3), ("max", 12), ("regex", "^[a-z./]+$"),
+SOPTS = [("case", "lower"), ("case", "upper"), ("min", 3), ("max", 12), ("regex", "^[a-z./]+$"), ("regex", "txt"), ("regex", "sub|a"),
          ("choices", ["a.txt", "sub", "sub/b.txt", "missing.txt"])]
 
 NAME = "filefields"
@@ -47,6 +47,9 @@ def generate(rng, tier):
     for u in URLS:
         for req in (False, True):
             cases.append({"cls": "url", "value": u, "required": req, "strip": u != u.strip(), "src": "matrix"})
+    for rx in ("example", "^http", "com$", "ftp|https", "(?i)http"):
+        for u in URLS:
+            cases.append({"cls": "url", "value": u, "required": False, "strip": False, "sopt": ("regex", rx), "src": "matrix"})
     for v in (None, 5, b"a.txt", ["a.txt"], True):
         cases.append({"cls": "file", "exists": None, "startdir": "start", "value": v, "strip": False, "src": "matrix"})
         cases.append({"cls": "url", "value": v, "required": False, "strip": False, "src": "matrix"})
@@ -163,7 +166,9 @@ def impl(c):
             mk = lambda: FilenameField(exists=c["exists"], startdir=sd, transform_strip=True if c["strip"] else None, **kw)   # noqa: E731
             out["startdir"] = sd
         else:
-            mk = lambda: UrlField(required=c["required"], transform_strip=True if c["strip"] else None)   # noqa: E731
+            so = c.get("sopt")
+            kw = {} if not so else {"regex": so[1]}
+            mk = lambda: UrlField(required=c["required"], transform_strip=True if c["strip"] else None, **kw)   # noqa: E731
         s = Schema()
         s.f = mk()
         cfg = s()
@@ -280,12 +285,14 @@ def oracle(c, obs):
             try:
                 pr = urlparse(t)
                 good = bool(pr.scheme)          # the field's documented rule: a valid URL that contains a scheme
+                if c.get("sopt") and c["sopt"][0] == "regex" and re.compile(c["sopt"][1]).match(t) is None:
+                    good = False                # the inherited pattern: re.match, anchored at the start only
             except ValueError:
                 good = False
             if good and r1[0] != "ok":
                 bad.append("%s: exact: a URL with a scheme is rejected" % what)
             if not good and r1[0] == "ok" and t != "":
-                bad.append("%s: exact: a value without a scheme is accepted" % what)
+                bad.append("%s: exact: a value without a scheme (or one the inherited pattern does not match) is accepted" % what)
         elif v is not None and r1[0] == "ok":
             bad.append("%s: exact: a non-string is accepted" % what)
     return bad
